@@ -111,6 +111,9 @@ func JS(ops []Op) string {
 			// bindings that contain themselves: every recursive reader of the state (the matcher, the JSON encoder) would
 			// never come back
 			b.WriteString("var c__ = {}; c__.self = c__; _.bindings[\"?x\"] = c__; _.bindings[\"k\"] = c__; return _.bindings;\n")
+		case "retnan":
+			// a number that is not JSON (the state could not be written out)
+			b.WriteString("_.bindings[\"k\"] = [1, {\"x\": 0 / 0}]; return _.bindings;\n")
 		default:
 			panic("unknown op " + o.Name)
 		}
@@ -176,7 +179,7 @@ func Native(ops []Op, partial bool) func(context.Context, match.Bindings, core.S
 				}
 			case "throw", "emitbad", "retgetter", "throwobj":
 				return fail(errBoom)
-			case "retscalar", "retcyclic", "retcyclicobj":
+			case "retscalar", "retcyclic", "retcyclicobj", "retnan":
 				return fail(errors.New("42 (int64) isn't Bindings (native)"))
 			case "loop":
 				select {
@@ -440,7 +443,7 @@ func Classify(err error) string {
 		return "thrown"
 	case strings.Contains(s, "timeout"):
 		return "timeout"
-	case strings.Contains(s, "isn't Bindings"), strings.Contains(s, "value is cyclic"), strings.Contains(s, "nested too deeply"):
+	case strings.Contains(s, "isn't Bindings"), strings.Contains(s, "value is cyclic"), strings.Contains(s, "nested too deeply"), strings.Contains(s, "not finite"):
 		return "badreturn"
 	case strings.Contains(s, "too many bindingss"):
 		return "toomany"
